@@ -314,7 +314,17 @@ func (t *Transport) healthyBody(req *http.Request, reqBody []byte, h uint64) []b
 			}
 		}
 	}
-	// generic webhook / resthook subscriber
+	// generic webhook / resthook subscriber: mostly objects, sometimes a bare JSON value
+	switch (h >> 24) % 10 {
+	case 4:
+		return []byte(`true`)
+	case 5:
+		return []byte(`false`)
+	case 6:
+		return []byte(`"eligible"`)
+	case 7:
+		return []byte(`[true,{"ok":false},3]`)
+	}
 	switch v {
 	case 0:
 		return []byte(`{"ok":true,"count":3,"name":"Bob","items":[{"id":1,"tag":"a"},{"id":2,"tag":"b"}],"nested":{"level":{"deep":"yes"}},"date":"2020-02-29T23:59:59.999999Z","amount":"12.50"}`)
